@@ -3862,14 +3862,12 @@ Box<ITV>
     --other_var;
     if (other_var != has_var_id) {
       // There is more than one dimension with non-zero coefficient, so
-      // we cannot have any information about the dimensions in the lhs.
-      ITV& seq_var = seq[has_var_id];
-      seq_var.assign(UNIVERSE);
-      // Since all but the highest dimension with non-zero coefficient
-      // in the lhs have been set unbounded, it remains to set the
-      // highest dimension in the lhs unbounded.
-      ITV& seq_i = seq[other_var];
-      seq_i.assign(UNIVERSE);
+      // we cannot have any information about the dimensions in the lhs:
+      // all of them are set unbounded.
+      for (Linear_Expression::const_iterator i = lhs.begin(),
+             i_end = lhs.end(); i != i_end; ++i) {
+        seq[i.variable().id()].assign(UNIVERSE);
+      }
       PPL_ASSERT(OK());
       return;
     }
